@@ -135,7 +135,9 @@ def build_universe(r, depth=2, nservers=2, families="mixed", glue="mixed", two_g
             z["recs"].append(rr(["alias2"] + a, "CNAME", dotted(["alias"] + other), ["alias"] + other))
         questions += [{"name": www, "type": "A"}, {"name": www, "type": "AAAA"}, {"name": ["alias"] + a, "type": "A"},
                       {"name": ["nope"] + a, "type": "A"}, {"name": ["txt"] + a, "type": "A"},
-                      {"name": ["txt"] + a, "type": "TXT"}, {"name": ["alias2"] + a, "type": "A"}, {"name": a, "type": "NS"}]
+                      {"name": ["txt"] + a, "type": "TXT"}, {"name": ["alias2"] + a, "type": "A"}, {"name": a, "type": "NS"},
+                      {"name": ["alias"] + a, "type": "TXT"}, {"name": ["alias2"] + a, "type": "TXT"},
+                      {"name": ["alias2"] + a, "type": "AAAA"}]
     for h in hostaddr:
         questions.append({"name": list(h), "type": r.choice(["A", "AAAA"])})
     uzones = [zone(z["apex"], dedup(z["recs"])) for z in zones.values()]
